@@ -45,6 +45,7 @@ def generate(rng, tier, index):
     answered = []
     nid = 0
     lost = False
+    closed = False
     steps = rng.randint(3, 40 if tier == 'quick' else 120)
     mixed = rng.random() < 0.5          # swarm: half of the runs mix request kinds and exception replies
     unsol_base = (tid_start + 20000) & 0xFFFF
@@ -60,7 +61,7 @@ def generate(rng, tier, index):
             if rng.random() < 0.15:
                 ev['reissue'] = {'id': 100000 + nid, 'count': 1, 'addr': rng.randrange(0, 60000)}
             events.append(ev)
-            if not lost:
+            if not lost and not closed:
                 pending.append(nid)
         elif r < 0.8 and pending and not lost:
             if variant == 'serial':
@@ -100,6 +101,12 @@ def generate(rng, tier, index):
             events.append({'e': 'lose'})
             lost = True
             pending = []
+        elif r < 0.985 and not lost and not closed:
+            # the application closes the client while requests may be outstanding; the transport confirms later
+            events.append({'e': 'close'})
+            closed = True
+    if closed and not lost:
+        events.append({'e': 'lose'})
     return mk(variant, events, tid_start)
 
 
@@ -155,14 +162,19 @@ def execute(scn):
     reissue_of = {}
     expect = {}                 # rid -> {'cb': n, 'eb': n}
     lost = False
+    closed_m = False
     max_out = 0
     context_flags = set()
     for ev in scn['events']:
         e = ev['e']
+        if e == 'close':
+            context_flags.add('close')
+            closed_m = True
+            continue
         if e == 'req':
             rid = ev['id']
             expect[rid] = {'cb': 0, 'eb': 0}
-            if lost:
+            if lost or closed_m:
                 expect[rid]['eb'] = 1
                 expect[rid]['after_loss'] = True
                 if ev.get('reissue'):
@@ -229,6 +241,8 @@ def execute(scn):
         ctx = 'plain'
     if 'lose' in context_flags:
         ctx += '+lose'
+    if 'close' in context_flags:
+        sig0['closed_by_application'] = True
     for rid, want in expect.items():
         rec = res.reqs.get(rid)
         if rec is None:
